@@ -19,4 +19,4 @@ for p in sorted(glob.glob("props/C*.py")):
         if gerr: print(gerr)
 PY
 python3 tools_gen_driver.py
-(cd lean && lake build)
+(cd lean && lake build TongoModel TongoGen TongoProofs Driver tongo_model)
